@@ -17,15 +17,15 @@ import (
 type c07Case struct {
 	Method    string   `json:"method"`
 	Status    int      `json:"status"`
-	Target    string   `json:"target"`         // spelling used for storing
-	TargetVia string   `json:"target_via"`     // spelling used for the unsafe request
+	Target    string   `json:"target"`     // spelling used for storing
+	TargetVia string   `json:"target_via"` // spelling used for the unsafe request
 	Variants  int      `json:"variants"`
 	Vary      string   `json:"vary"`
-	LocHeader string   `json:"loc_header"`     // Location | Content-Location | both
-	Loc       string   `json:"loc"`            // value as sent
-	Loc2      string   `json:"loc2,omitempty"` // Content-Location when both
+	LocHeader string   `json:"loc_header"`          // Location | Content-Location | both
+	Loc       string   `json:"loc"`                 // value as sent
+	Loc2      string   `json:"loc2,omitempty"`      // Content-Location when both
 	InFlight  string   `json:"in_flight,omitempty"` // "" | "304" | "200": a background revalidation is in flight during the unsafe request
-	Others    []string `json:"others"`         // other stored URIs (absolute)
+	Others    []string `json:"others"`              // other stored URIs (absolute)
 }
 
 var c07Methods = []string{"POST", "PUT", "DELETE", "PATCH", "PROPPATCH", "MKCOL", "COPY", "MOVE", "LOCK", "UNLOCK", "ACL", "FOO", "PURGE", "post", "get", "Head", "options", "Report", "search", "Trace", "gET"}
